@@ -1091,15 +1091,168 @@ fn c10_hist(input: &Input, obs: &mut Obs) -> Result<(), Fail> {
     }
 }
 
+/// micro-operation histories around capacity: single polls instead of settles, so that responses,
+/// closes and connects interleave between two requests() calls. Only order-insensitive oracles.
+fn c10_micro(input: &Input, obs: &mut Obs) -> Result<(), Fail> {
+    let mut s = Src::new(input.bytes());
+    let nslots = 48;
+    let mut w = World::new(nslots, false, obs.want_render).map_err(|e| Fail::new("harness-world", e))?;
+    let mut next_slot = 0usize;
+    let mut zombies = 0;
+    let mut refusals = 0;
+    let spec = ReqSpec { method: 0, version: 1, body: 0, expect: false, extra_headers: 0, body_kind: 0 };
+    let unrefused_open = |w: &World, c: usize| w.clients[c].state == CState::Connected && !w.clients[c].eof && !w.clients[c].reset;
+    let r = (|| -> Result<(), (String, String)> {
+        // fill up
+        let fill = s.range(8, 10);
+        for _ in 0..fill {
+            w.connect(next_slot);
+            next_slot += 1;
+        }
+        w.settle(200, true);
+        // some of them get a request in flight
+        for c in 0..fill {
+            if s.chance(100) {
+                w.send_request(c, &spec, &[]);
+            }
+        }
+        w.settle(200, true);
+        let nops = s.range(10, 70);
+        for _ in 0..nops {
+            let live: Vec<usize> = (0..next_slot).filter(|c| unrefused_open(&w, *c)).collect();
+            match s.weighted(&[10, 6, 5, 8, 14, 3, 2]) {
+                0 => {
+                    if next_slot < nslots {
+                        w.connect(next_slot);
+                        next_slot += 1;
+                    }
+                }
+                1 => {
+                    if !live.is_empty() {
+                        let c = live[s.below(live.len())];
+                        if w.outstanding.iter().any(|o| o.c == c) {
+                            zombies += 1;
+                        }
+                        w.close_client(c);
+                    }
+                }
+                2 => {
+                    if !live.is_empty() {
+                        let c = live[s.below(live.len())];
+                        w.send_request(c, &spec, &[]);
+                    }
+                }
+                3 => {
+                    if !w.outstanding.is_empty() {
+                        // prefer requests of clients that are gone
+                        let gone: Vec<usize> = w.outstanding.iter().enumerate().filter(|(_, o)| w.clients[o.c].state != CState::Connected).map(|(i, _)| i).collect();
+                        let k = if !gone.is_empty() && s.chance(170) { gone[s.below(gone.len())] } else { s.below(w.outstanding.len()) };
+                        w.respond(k, 200, s.range(0, 200));
+                    }
+                }
+                4 => {
+                    if let PollRes::Err(e) = w.poll() {
+                        return Err((format!("requests-err:{}", e), format!("requests() returned Err({})", e)));
+                    }
+                }
+                5 => {
+                    if !live.is_empty() {
+                        let c = live[s.below(live.len())];
+                        w.read_client(c, usize::MAX);
+                    }
+                }
+                _ => {
+                    w.settle(200, true);
+                }
+            }
+            if let Some(PollRes::Err(e)) = w.poll_results.iter().find(|r| matches!(r, PollRes::Err(_))) {
+                return Err((format!("requests-err:{}", e), format!("requests() returned Err({})", e)));
+            }
+        }
+        w.settle(300, true);
+        if let Some(PollRes::Err(e)) = w.poll_results.iter().find(|r| matches!(r, PollRes::Err(_))) {
+            return Err((format!("requests-err:{}", e), format!("requests() returned Err({})", e)));
+        }
+        // every client that is still there was either refused properly or is being served
+        let mut served = 0;
+        for c in 0..next_slot {
+            if w.clients[c].state != CState::Connected {
+                continue;
+            }
+            let a = audit_client(&w, c)?;
+            let cl = &w.clients[c];
+            if a.n503 > 0 {
+                refusals += 1;
+                if !(cl.eof || cl.reset) {
+                    return Err(("refused-not-disconnected".into(), format!("client {} received the 503 message but its connection stays open", c)));
+                }
+                if a.app_received + a.n100 + a.n400 + a.n500 > 0 || a.n503 != 1 {
+                    return Err(("refused-extra".into(), format!("refused client {} received more than the single 503 message: {:?}", c, a)));
+                }
+            } else if cl.eof || cl.reset {
+                return Err(("dropped-without-503".into(), format!("client {} never closed its connection and was disconnected without the 503 message (received \"{}\")", c, esc(&cl.recv))));
+            } else {
+                served += 1;
+                // an open, accepted client gets its complete requests yielded
+                let want: Vec<usize> = (0..cl.composed.len()).collect();
+                if cl.yielded != want {
+                    return Err(("disturbed".into(), format!("open client {} sent requests {:?}, yielded {:?}", c, want, cl.yielded)));
+                }
+            }
+        }
+        if served > 10 {
+            return Err(("over-capacity".into(), format!("{} clients are connected and unrefused at once", served)));
+        }
+        // drain
+        for c in 0..next_slot {
+            w.close_client(c);
+        }
+        while !w.outstanding.is_empty() {
+            w.respond(0, 200, 5);
+        }
+        w.answer_untagged();
+        w.settle(600, true);
+        if let Some(PollRes::Err(e)) = w.poll_results.iter().find(|r| matches!(r, PollRes::Err(_))) {
+            return Err((format!("requests-err:{}", e), format!("requests() returned Err({})", e)));
+        }
+        let held = w.held();
+        if held != 0 {
+            return Err(("fd-leak".into(), format!("all clients closed and all requests answered, yet the server still holds {} connection descriptors", held)));
+        }
+        if let Some(e) = w.api_errors.first() {
+            return Err(("respond-err".into(), e.clone()));
+        }
+        Ok(())
+    })();
+    obs.nontrivial = zombies > 0 && refusals > 0;
+    if zombies > 0 {
+        obs.label("close_with_requests_in_flight");
+    }
+    if refusals > 0 {
+        obs.label("refusal");
+    }
+    obs.case_hash = Some(fnv64(input.bytes()));
+    if obs.want_render {
+        obs.render = w.render();
+    }
+    match r {
+        Ok(()) => Ok(()),
+        Err((sig, msg)) => Err(wfail("C10", &sig, msg, &w)),
+    }
+}
+
 fn c10_plan(tier: Tier) -> Vec<Job> {
     let q = tier == Tier::Quick;
-    vec![Job { sub: "hist", kind: JobKind::Pbt { cases: if q { 10_000 } else { 200_000 }, max_len: 600 }, smallbuf: false }]
+    vec![
+        Job { sub: "hist", kind: JobKind::Pbt { cases: if q { 10_000 } else { 200_000 }, max_len: 600 }, smallbuf: false },
+        Job { sub: "micro", kind: JobKind::Pbt { cases: if q { 20_000 } else { 400_000 }, max_len: 400 }, smallbuf: false },
+    ]
 }
 
 pub fn c10() -> PropDef {
     PropDef {
         id: "C10",
-        subs: vec![("hist", c10_hist)],
+        subs: vec![("hist", c10_hist), ("micro", c10_micro)],
         plan: c10_plan,
         rule: "case = history of 10..90 macro-operations over up to 64 client slots, biased to hover at 9..12 simultaneous connections in repeated fill/drain cycles: connect, close, shutdown(RDWR), send request, send partial request, respond (small or 300 KB), read, and bursts of several connects/closes between two polls; each macro-operation is followed by a settle; oracle = a client connecting while 10 are held receives exactly the fixed 503 message then EOF, one connecting while fewer are held is accepted (either outcome when a slot is freed in the same batch), never more than 10 served, existing connections undisturbed, descriptors held (via /proc/self/fd) between #open and #open+#dead-with-unanswered-requests at every quiescent point and exactly listener+epoll at the end; non-trivial = reached 10 held connections with >=1 refusal and >=1 later successful connect",
         assumptions: vec!["capacity decisions are judged at quiescent points (after a settle)"],
@@ -1734,6 +1887,12 @@ fn c18_kill(input: &Input, obs: &mut Obs) -> Result<(), Fail> {
     let mut s = Src::new(input.bytes());
     let (ops, fill) = k_gen(&mut s);
     let extra_seed = s.u32();
+    // API call order: kill switch registered before or after start_server
+    let after_start = s.chance(128);
+    KILL_AFTER_START.with(|c| c.set(after_start));
+    if after_start {
+        obs.label("kill_switch_added_after_start");
+    }
     let mut nontrivial_points = 0u64;
     let mut evals = 0u64;
     // kill at every position of the history
